@@ -60,7 +60,10 @@ MANIFEST = dict(
          'For the texture-name view the premise is PROVED from the object generated from _lmp_write_textures/_lmp_read_textures '
          '(C11\'s tex_cfg): texcfg_ok (pool searched for name+NUL, name+NUL appended, guard below the window) and '
          'texcfg_window_is_guard (every name the reader can return passes the writer\'s guard) imply the premise for every content '
-         'of the two lumps; seeded c10_5 (bare-name search) refuted in closed form. For the other views the premise is supported by '
+         'of the two lumps; seeded c10_5 (bare-name search) refuted in closed form. For views that are a plain array of fixed struct '
+         'records (planes, vertexes, cubemaps) the premise is proved at record level for every lump content from C11\'s generated '
+         'stream (one well-formed format of positive size on both sides), using the direction C11 does not state: whatever unpack '
+         'returns for bytes fits the format. For the other views the premise is supported by '
          'C11\'s obligations over the generated records, formats, dedup keys, bit fields, entity template and visibility rows, '
          'discharged here per view on every run (codec[<views>]:<name>); pakfile has none.',
     note='Assumed in the theorems (visible hypotheses): each lump writer inverts its reader on the file\'s lumps (codec_ok, '
